@@ -8,7 +8,7 @@ From Coq Require Import ZifyN ZifyNat ZifyBool.
 Open Scope N_scope.
 
 (* ---- the correspondence ------------------------------------------------------- *)
-Definition abs (s : st) : sst := mkS (vars s) (funcs s) (out s) (code (lastEx s)) (errexit s).
+Definition abs (s : st) : sst := mkS (vars s) (funcs s) (out s) (code (lastEx s)) (errexit s) (pipefail s).
 Definition ctxof (s : st) : sctx := mkK (inLoop s) (inFunc s) (noErrExit s).
 
 Definition ex_of (c : N) (r : outcome) : exitT :=
@@ -25,7 +25,7 @@ Definition cnt_of (r : outcome) : Z := match r with OCnt n => n | _ => 0%Z end.
 Definition appc (s : st) (res : sres) : st :=
   let '(ss, c, r) := res in
   mkSt (svars ss) (sfuncs ss) (sout ss) (ex_of c r) (ex_of (slast ss) r) (brk_of r) (cnt_of r)
-       (inLoop s) (inFunc s) (noErrExit s) (serrexit ss) None (late s) false.
+       (inLoop s) (inFunc s) (noErrExit s) (serrexit ss) (spipefail ss) None (late s) false.
 
 (* r.lastExit = r.exit, the last action of Runner.stmt *)
 Definition fin (x : st) : st := set_lastEx (ex x) x.
@@ -94,7 +94,7 @@ Proof. destruct res as [[ss c] r], res' as [[ss' c'] r']. reflexivity. Qed.
 
 Lemma appc_self s : clean s -> code (ex s) = 0 -> appc s (abs s, 0, ONormal) = s.
 Proof.
-  destruct s as [v f o [c r e fa] [c' r' e' fa'] b cn il ifn ne ee cx la stk].
+  destruct s as [v f o [c r e fa] [c' r' e' fa'] b cn il ifn ne ee pf cx la stk].
   unfold clean, appc, abs; cbn. intros (->&->&->&->&->&->&->&->&->&->) ->. reflexivity.
 Qed.
 
@@ -131,7 +131,7 @@ Qed.
 (* ---- statement post-processing -------------------------------------------------- *)
 Lemma fin_sync_post neg c x : fin (sync_post neg c x) = fin (sync_post neg c (fin x)).
 Proof.
-  destruct x as [v f o [cd r e fa] le b cn il ifn ne ee cx la stk].
+  destruct x as [v f o [cd r e fa] le b cn il ifn ne ee pf cx la stk].
   unfold sync_post, fin, ok, set_code, exit_clear; cbn.
   destruct neg, (is_andor c), (is_compound c), r, e, fa, (cd =? 0), ne, ee; reflexivity.
 Qed.
@@ -200,7 +200,7 @@ Lemma builtin_ok name args s :
   /\ wfr (ctxof s) (outc (sem_builtin (ctxof s) name args (abs s)))
   /\ brk_zero (sem_builtin (ctxof s) name args (abs s)).
 Proof.
-  destruct s as [v f o [c r e fa] [c' r' e' fa'] b cn il ifn ne ee cx la stk].
+  destruct s as [v f o [c r e fa] [c' r' e' fa'] b cn il ifn ne ee pf cx la stk].
   unfold clean; cbn. intros (->&->&->&->&->&->&->&->&->&->) ->.
   unfold builtin, sem_builtin, noabort, brk_zero, outc, rcode, ctxof, abs, wfr. cbn [inl infn noerr inLoop inFunc noErrExit].
   intros Ha.
@@ -229,8 +229,10 @@ Proof.
     destruct (atoi a) as [z|]; cbn in *; bleaf Ha. }
   destruct (str_eqb name n_set).
   { destruct ne; cbn in *; [discriminate Ha|].
-    destruct args as [|a [|a2 args]]; cbn in *; [bleaf Ha| |bleaf Ha].
-    destruct (str_eqb a n_me); [bleaf Ha|]. destruct (str_eqb a n_pe); bleaf Ha. }
+    destruct args as [|a [|a2 [|a3 args]]]; cbn in *; [bleaf Ha| | |bleaf Ha].
+    - destruct (str_eqb a n_me); [bleaf Ha|]. destruct (str_eqb a n_pe); bleaf Ha.
+    - destruct (str_eqb a2 n_pipefail); [|bleaf Ha].
+      destruct (str_eqb a n_mo); [bleaf Ha|]. destruct (str_eqb a n_po); bleaf Ha. }
   destruct (is_other_builtin name); bleaf Ha.
 Qed.
 
@@ -402,7 +404,7 @@ Proof. intros H. destruct n; cbn [while_loop]; now rewrite (stop_stopped s H). Q
 
 Lemma appc_self' s : clean s -> appc s (abs s, code (ex s), ONormal) = s.
 Proof.
-  destruct s as [v f o [c r e fa] [c' r' e' fa'] b cn il ifn ne ee cx la stk].
+  destruct s as [v f o [c r e fa] [c' r' e' fa'] b cn il ifn ne ee pf cx la stk].
   unfold clean, appc, abs; cbn. intros (->&->&->&->&->&->&->&->&->&->). reflexivity.
 Qed.
 
@@ -556,7 +558,8 @@ Lemma case_ok subj items : forall s,
 Proof.
   induction items as [|[pats body] items IHi]; intros s Hc H0 Ha.
   - cbn [case_items sem_case]. rewrite appc_self; auto. split; [reflexivity|exact I].
-  - cbn [case_items sem_case] in *. rewrite pats_match.
+  - cbn [case_items sem_case] in *.
+    destruct (existsb pat_has_subst pats); [discriminate Ha|]. rewrite pats_match.
     destruct (existsb (spat_match (abs s) subj) pats).
     + apply rstmts_ok; auto.
     + apply IHi; auto.
@@ -603,6 +606,91 @@ Lemma sem_stmt_abort_or k x y ss :
                   | res => res end)) = true.
 Proof. destruct (sem_stmtF (in_cond k) x ss) as [[ss1 c1] r1]. destruct r1; cbn; try discriminate. reflexivity. Qed.
 
+(* ---- expansion with command substitutions ---------------------------------------------- *)
+Lemma clean_restore s : clean s -> set_stuck false (set_late (late s) (set_ctx None s)) = s.
+Proof.
+  destruct s as [v f o e le b cn il ifn ne ee pf cx la stk]. unfold clean; cbn.
+  intros (_&_&_&_&_&_&_&_&->&->). reflexivity.
+Qed.
+
+Lemma cmdsubst_ok l s n :
+  clean s ->
+  match sem_subst (sem fuel) (ctxof s) l (abs s) n with
+  | EAbort _ => True
+  | EOk v n' => cmdsubst (run fuel) l s (exit_code n) = (v, s, exit_code n')
+  end.
+Proof.
+  intros Hc. destruct l as [|t l]; [reflexivity|].
+  unfold sem_subst, cmdsubst.
+  set (child := set_out [] (subshell s)).
+  assert (Hcc : clean child) by (destruct Hc as (?&?&?&?&?&?&?&?&?&?); unfold clean, child; cbn; tauto).
+  pose proof (rstmts_ok (t :: l) child Hcc) as H.
+  change (ctxof child) with (mkK false false (noerr (ctxof s))) in H.
+  change (abs child) with (s_set_out [] (abs s)) in H.
+  destruct (sem_stmtsF (mkK false false (noerr (ctxof s))) (t :: l) (s_set_out [] (abs s))) as [[ss2 c2] r2] eqn:E.
+  assert (Hfin : is_abort r2 = false -> (r2 = ONormal \/ r2 = OExit) /\
+            rstmtsF (t :: l) child = appc child (ss2, c2, r2)).
+  { intros Hna. destruct H as [H1 W]; [discriminate|exact Hna|]. split; [|exact H1].
+    destruct r2; cbn in W; try tauto; try (destruct W; discriminate); discriminate. }
+  assert (Hres : is_abort r2 = false ->
+            (subst_output (out (rstmtsF (t :: l) child)),
+             set_stuck (stuck (rstmtsF (t :: l) child) || fatalExit (ex (rstmtsF (t :: l) child)))
+               (set_late (late (rstmtsF (t :: l) child)) (set_ctx (ctx (rstmtsF (t :: l) child)) s)),
+             mkExit (code (ex (rstmtsF (t :: l) child))) (returning (ex (rstmtsF (t :: l) child))) false
+                    (fatalExit (ex (rstmtsF (t :: l) child))))
+            = (subst_output (sout ss2), s, exit_code c2)).
+  { intros Hna. destruct (Hfin Hna) as [Hr ->].
+    destruct Hr as [-> | ->]; cbn; change (late child) with (late s); rewrite (clean_restore s Hc); reflexivity. }
+  destruct r2 as [ |m|m|e| |w]; try exact I;
+    (destruct (serrexit (abs s));
+     [ destruct (sem_stmtsF (mkK false false (noerr (ctxof s))) (t :: l) (s_set_errexit false (s_set_out [] (abs s)))) as [[ss1 c1] r1];
+       destruct r1; try exact I;
+       (destruct (bytes_eqb (sout ss1) (sout ss2) && (c1 =? c2)); [|exact I]); apply Hres; reflexivity
+     | apply Hres; reflexivity ]).
+Qed.
+
+Lemma expand_word_ok w : forall s n cur,
+  clean s ->
+  match sem_expand_word (sem fuel) (ctxof s) w (abs s) n cur with
+  | EAbort _ => True
+  | EOk (v, _) n' => expand_word (run fuel) w s (exit_code n) = (v, s, exit_code n')
+  end.
+Proof.
+  induction w as [|p w IHw]; intros s n cur Hc; cbn [sem_expand_word expand_word]; [reflexivity|].
+  destruct p as [t|x| |l].
+  - cbn [part_pure]. specialize (IHw s n cur Hc).
+    destruct (sem_expand_word (sem fuel) (ctxof s) w (abs s) n cur) as [[b cur2] n2|]; [|exact I].
+    rewrite IHw. reflexivity.
+  - cbn [part_pure]. specialize (IHw s n cur Hc).
+    destruct (sem_expand_word (sem fuel) (ctxof s) w (abs s) n cur) as [[b cur2] n2|]; [|exact I].
+    rewrite IHw. reflexivity.
+  - destruct (cur =? slast (abs s)) eqn:Ecur; cbn [negb]; [|exact I].
+    apply N.eqb_eq in Ecur. subst cur. specialize (IHw s n (slast (abs s)) Hc).
+    destruct (sem_expand_word (sem fuel) (ctxof s) w (abs s) n (slast (abs s))) as [[b cur2] n2|]; [|exact I].
+    cbn [part_pure]. rewrite IHw. reflexivity.
+  - destruct (cur =? slast (abs s)); cbn [negb]; [|exact I].
+    pose proof (cmdsubst_ok l s n Hc) as Hs.
+    destruct (sem_subst (sem fuel) (ctxof s) l (abs s) n) as [a n1|]; [|exact I].
+    rewrite Hs. specialize (IHw s n1 (match l with [] => cur | _ => n1 end) Hc).
+    destruct (sem_expand_word (sem fuel) (ctxof s) w (abs s) n1 (match l with [] => cur | _ => n1 end)) as [[b cur2] n2|]; [|exact I].
+    rewrite IHw. reflexivity.
+Qed.
+
+Lemma expand_words_ok ws : forall s n cur,
+  clean s ->
+  match sem_expand_words (sem fuel) (ctxof s) ws (abs s) n cur with
+  | EAbort _ => True
+  | EOk (l, _) n' => expand_words (run fuel) ws s (exit_code n) = (l, s, exit_code n')
+  end.
+Proof.
+  induction ws as [|w ws IHws]; intros s n cur Hc; cbn [sem_expand_words expand_words]; [reflexivity|].
+  pose proof (expand_word_ok w s n cur Hc) as Hw.
+  destruct (sem_expand_word (sem fuel) (ctxof s) w (abs s) n cur) as [[a cur1] n1|]; [|exact I].
+  rewrite Hw. specialize (IHws s n1 cur1 Hc).
+  destruct (sem_expand_words (sem fuel) (ctxof s) ws (abs s) n1 cur1) as [[l cur2] n2|]; [|exact I].
+  rewrite IHws. reflexivity.
+Qed.
+
 (* one more unit of fuel *)
 Lemma step_ok c s :
   clean s -> code (ex s) = 0 ->
@@ -614,16 +702,22 @@ Proof.
   intros Hc H0 Ha. cbn [run sem] in *. unfold cmd_step. rewrite (stop_clean s Hc).
   assert (Hnoerr : forall b, clean (set_noErrExit b s))
     by (intros b; destruct Hc as (?&?&?&?&?&?&?&?&?&?); unfold clean; cbn; tauto).
-  destruct c as [x w|w ws|l|l|x y|x y|c t e|u c b|x items b|w items|name body]; cbn [sem_step] in *.
+  destruct c as [x w|w ws|l|l|x y|x y|x y|c t e|u c b|x items b|w items|name body]; cbn [sem_step] in *.
   - (* assignment *)
-    change (ok (set_vars (update x (expw s w) (vars s)) s)) with (code (ex s) =? 0). rewrite H0. cbn.
-    destruct s as [v f o [cd r e fa] [cd' r' e' fa'] bk cn il ifn ne ee cx la stk]. cbn in *. subst cd.
+    pose proof (expand_word_ok w s 0 (slast (abs s)) Hc) as Hw.
+    destruct (sem_expand_word (sem fuel) (ctxof s) w (abs s) 0 (slast (abs s))) as [[v cur] n|]; [|discriminate Ha].
+    change exit0 with (exit_code 0). rewrite Hw.
+    change (ok (set_vars (update x v (vars s)) s)) with (code (ex s) =? 0). rewrite H0. cbn.
+    destruct s as [vv f o [cd r e fa] [cd' r' e' fa'] bk cn il ifn ne ee pf cx la stk]. cbn in *. subst cd.
     unfold clean in Hc; cbn in Hc. destruct Hc as (->&->&->&->&->&->&->&->&->&->). repeat split.
   - (* call *)
-    pose proof (call_ok (List.map (expw s) (w :: ws)) s Hc H0 Ha) as (E&W&B).
-    change (List.map (sexpw (abs s)) (w :: ws)) with (List.map (expw s) (w :: ws)).
+    pose proof (expand_words_ok (w :: ws) s 0 (slast (abs s)) Hc) as Hw.
+    destruct (sem_expand_words (sem fuel) (ctxof s) (w :: ws) (abs s) 0 (slast (abs s))) as [[fields cur] n|]; [|discriminate Ha].
+    change exit0 with (exit_code 0). rewrite Hw.
+    destruct (negb (cur =? slast (abs s)) && observes_status fields (abs s)); [discriminate Ha|].
+    pose proof (call_ok fields s Hc H0 Ha) as (E&W&B).
     repeat split; auto. unfold brk_code_ok. unfold brk_zero in B.
-    destruct (outc (sem_call (sem fuel) (ctxof s) (List.map (expw s) (w :: ws)) (abs s))); auto.
+    destruct (outc (sem_call (sem fuel) (ctxof s) fields (abs s))); auto.
   - (* block *)
     destruct (rstmts_ok l s Hc (fun _ => H0) Ha) as [E W]. rewrite E. repeat split; auto.
     unfold brk_code_ok. destruct (outc _); auto; discriminate.
@@ -637,10 +731,10 @@ Proof.
     destruct r1 as [ |m|m|e| |w]; try discriminate Ha;
       (destruct H2 as [E W]; [reflexivity|]); rewrite E; cbn in W; try (destruct W; discriminate); try discriminate W.
     + subst s2. clear E El Hc2 Ha Hnoerr.
-      destruct s as [v f o [cd r e fa] [cd' r' e' fa'] bk cn il ifn ne ee cx la stk]. cbn in *. subst cd.
+      destruct s as [v f o [cd r e fa] [cd' r' e' fa'] bk cn il ifn ne ee pf cx la stk]. cbn in *. subst cd.
       unfold clean in Hc; cbn in Hc. destruct Hc as (->&->&->&->&->&->&->&->&->&->). repeat split.
     + subst s2. clear E El Hc2 Ha Hnoerr.
-      destruct s as [v f o [cd r e fa] [cd' r' e' fa'] bk cn il ifn ne ee cx la stk]. cbn in *. subst cd.
+      destruct s as [v f o [cd r e fa] [cd' r' e' fa'] bk cn il ifn ne ee pf cx la stk]. cbn in *. subst cd.
       unfold clean in Hc; cbn in Hc. destruct Hc as (->&->&->&->&->&->&->&->&->&->). repeat split.
   - (* && *)
     set (sc := set_noErrExit true s).
@@ -696,6 +790,31 @@ Proof.
     + change (ok (appc s (ss1, c1, OExit))) with (c1 =? 0). destruct (c1 =? 0); cbn [negb];
         [|rewrite rstmt_stopped by (apply appc_stopped; auto; discriminate)]; (split; [reflexivity|split; [exact W1|apply Bk]]).
     + discriminate Hnx.
+  - (* pipeline *)
+    assert (Hctx : ctx s = None) by (destruct Hc as (_&_&_&_&_&_&_&_&Hx&_); exact Hx).
+    assert (Hstk : stuck s = false) by (destruct Hc as (_&_&_&_&_&_&_&_&_&Hx); exact Hx).
+    rewrite Hctx.
+    set (child := set_out [] (subshell s)).
+    assert (Hcc : clean child) by (destruct Hc as (?&?&?&?&?&?&?&?&?&?); unfold clean, child; cbn; tauto).
+    pose proof (rstmt_ok x child Hcc) as Hx.
+    change (ctxof child) with (mkK false false (noerr (ctxof s))) in Hx.
+    change (abs child) with (s_set_out [] (abs s)) in Hx.
+    destruct (sem_stmtF (mkK false false (noerr (ctxof s))) x (s_set_out [] (abs s))) as [[ssx c1] rx] eqn:Ex.
+    assert (Hrx : is_abort rx = false) by (destruct rx; try reflexivity; discriminate Ha).
+    destruct (Hx Hrx) as (E1&W1&_). rewrite E1.
+    assert (Hnr : rx = ONormal \/ rx = OExit).
+    { destruct rx; cbn in W1; try tauto; try (destruct W1; discriminate); discriminate. }
+    change (stuck (appc child (ssx, c1, rx))) with false. rewrite Hstk. cbn [orb].
+    assert (Hsame : set_stuck false s = s) by (destruct s; cbn in Hstk; subst; reflexivity).
+    rewrite Hsame.
+    pose proof (rstmt_ok y s Hc) as Hy.
+    destruct (sem_stmtF (ctxof s) y (abs s)) as [[ss2 c2] r2] eqn:Ey.
+    destruct Hnr as [-> | ->];
+      (destruct r2 as [ |m|m|e| |w]; try discriminate Ha;
+       destruct (Hy eq_refl) as (E2&_&_); rewrite E2;
+       destruct (same_shell (abs s) ss2) eqn:Hss; [|discriminate Ha];
+       unfold ok; cbn; destruct (spipefail ss2 && negb (c1 =? 0) && (c2 =? 0));
+       (split; [reflexivity|split; [exact I|exact I]])).
   - (* if *)
     set (sc := set_noErrExit true s).
     pose proof (rstmts_ok c sc (Hnoerr true) (fun _ => H0)) as Hcd.
@@ -736,15 +855,21 @@ Proof.
     destruct (while_ok fuel u c b 0 s Hc Ha) as [E W]. rewrite E. repeat split; auto.
     unfold brk_code_ok. destruct (outc _); auto; discriminate.
   - (* for *)
-    change (List.map (sexpw (abs s)) items) with (List.map (expw s) items) in *.
-    destruct (for_ok x b (List.map (expw s) items) 0 s Hc H0 (fun _ => eq_refl) Ha) as [E W].
+    pose proof (expand_words_ok items s 0 (slast (abs s)) Hc) as Hw.
+    destruct (sem_expand_words (sem fuel) (ctxof s) items (abs s) 0 (slast (abs s))) as [[fields cur] n|]; [|discriminate Ha].
+    change exit0 with (exit_code 0). rewrite Hw.
+    destruct (negb (cur =? slast (abs s))); [discriminate Ha|].
+    destruct (for_ok x b fields 0 s Hc H0 (fun _ => eq_refl) Ha) as [E W].
     rewrite E. repeat split; auto. unfold brk_code_ok. destruct (outc _); auto; discriminate.
   - (* case *)
-    change (sexpw (abs s) w) with (expw s w) in *.
-    destruct (case_ok (expw s w) items s Hc H0 Ha) as [E W]. rewrite E. repeat split; auto.
+    pose proof (expand_word_ok w s 0 (slast (abs s)) Hc) as Hw.
+    destruct (sem_expand_word (sem fuel) (ctxof s) w (abs s) 0 (slast (abs s))) as [[subject cur] n|]; [|discriminate Ha].
+    change exit0 with (exit_code 0). rewrite Hw.
+    destruct (negb (cur =? slast (abs s))); [discriminate Ha|].
+    destruct (case_ok subject items s Hc H0 Ha) as [E W]. rewrite E. repeat split; auto.
     unfold brk_code_ok. destruct (outc _); auto; discriminate.
   - (* function definition *)
-    destruct s as [v f o [cd r e fa] [cd' r' e' fa'] bk cn il ifn ne ee cx la stk]. cbn in *. subst cd.
+    destruct s as [v f o [cd r e fa] [cd' r' e' fa'] bk cn il ifn ne ee pf cx la stk]. cbn in *. subst cd.
     unfold clean in Hc; cbn in Hc. destruct Hc as (->&->&->&->&->&->&->&->&->&->). repeat split.
 Qed.
 End Step.
